@@ -21,7 +21,21 @@ type batch struct {
 	Kind  string `json:"kind"` // payload | stream | cross
 	Cmd   string `json:"cmd,omitempty"`
 	Round int    `json:"round"`
+	Part  int    `json:"part"`  // payload batches of expensive types are split: part k of Parts
+	Parts int    `json:"parts"` // scans the positions o with o%Parts==k
 	Magic uint32 `json:"magic"`
+}
+
+// partsOf: decoding one public key costs ≈0.1 ms (modular square root), so the types that
+// carry keys or signatures get their position scan split over several children.
+func partsOf(cmd string) int {
+	switch cmd {
+	case pc.HEADERS_TYPE, pc.BLOCK_TYPE, pc.TX_TYPE, pc.CONSENSUS_TYPE, pc.SUBNET_OFFLINE_TYPE, pc.GET_SUBNET_MEMBERS_TYPE:
+		return 6
+	case pc.UPDATE_KADID_TYPE, pc.FINDNODE_RESP_TYPE, pc.SUBNET_MEMBERS_TYPE, pc.ADDR_TYPE, pc.VERSION_TYPE, pc.INV_TYPE:
+		return 2
+	}
+	return 1
 }
 
 func magicFor(i int) uint32 {
@@ -39,14 +53,16 @@ func batches() []batch {
 	rounds := vf.N(1, 14)
 	for r := 0; r < rounds; r++ {
 		for i, sp := range specs {
-			bs = append(bs, batch{Kind: "payload", Cmd: sp.cmd, Round: r, Magic: magicFor(i + r)})
+			for k, n := 0, partsOf(sp.cmd); k < n; k++ {
+				bs = append(bs, batch{Kind: "payload", Cmd: sp.cmd, Round: r, Part: k, Parts: n, Magic: magicFor(i + r + k)})
+			}
 		}
 	}
 	for r := 0; r < vf.N(2, 12); r++ {
-		bs = append(bs, batch{Kind: "stream", Round: r, Magic: magicFor(r)})
+		bs = append(bs, batch{Kind: "stream", Round: r, Parts: 1, Magic: magicFor(r)})
 	}
 	for r := 0; r < vf.N(1, 8); r++ {
-		bs = append(bs, batch{Kind: "cross", Round: r, Magic: magicFor(r + 1)})
+		bs = append(bs, batch{Kind: "cross", Round: r, Parts: 1, Magic: magicFor(r + 1)})
 	}
 	return bs
 }
@@ -123,6 +139,9 @@ func scanOffsets(rng *vf.RNG, n int) []int {
 func (c *child) gridScan(rng *vf.RNG, cmd string, p []byte, label string) {
 	put := func(tag string, q []byte) { c.run(hcase{kind: 'P', tag: tag, cmd: cmd, data: q}) }
 	for _, o := range scanOffsets(rng, len(p)) {
+		if o%c.batch.Parts != c.batch.Part {
+			continue
+		}
 		for _, v := range gridU8 {
 			if byte(v) == p[o] {
 				continue
@@ -250,6 +269,7 @@ func (c *child) payloadBatch(rng *vf.RNG) {
 	sp := specOf(c.batch.Cmd)
 	g := &gen{rng: rng.Sub(1)}
 	nMut := vf.N(300, 1500)
+	part := func(k int) bool { return k%c.batch.Parts == c.batch.Part }
 	type seedv struct {
 		label string
 		size  int
@@ -271,17 +291,23 @@ func (c *child) payloadBatch(rng *vf.RNG) {
 		if c.ctr["accept:"+sp.cmd] > before {
 			c.count("seed_accepted:" + sp.cmd)
 		}
-		c.truncations(rng.Sub(2), sp.cmd, p, sd.label)
+		if part(0) {
+			c.truncations(rng.Sub(2), sp.cmd, p, sd.label)
+		}
 		if sd.scan {
 			c.gridScan(rng.Sub(3), sp.cmd, p, sd.label)
 		}
-		c.randomMutations(rng.Sub(uint64(4+sd.size)), sp.cmd, p, sd.label, nMut)
-		c.altKeys(sp.cmd, p, sd.label)
+		c.randomMutations(rng.Sub(uint64(4+sd.size)*64+uint64(c.batch.Part)), sp.cmd, p, sd.label, nMut/c.batch.Parts+1)
+		if part(1) {
+			c.altKeys(sp.cmd, p, sd.label)
+		}
 	}
-	c.overMax(g)
+	if part(2) {
+		c.overMax(g)
+	}
 	// pure noise, and noise behind a plausible prefix
-	rr := rng.Sub(9)
-	for i, n := 0, vf.N(400, 2000); i < n; i++ {
+	rr := rng.Sub(9 + uint64(c.batch.Part))
+	for i, n := 0, vf.N(400, 2000)/c.batch.Parts; i < n; i++ {
 		l := rr.Intn(200)
 		if rr.Chance(5) {
 			l = rr.Intn(5000)
